@@ -7,7 +7,7 @@ EXPLANATION = (
     "digit run -> push its i64 value, advance its length; '.' '_' -> 0; pl -> 0, alpha -> -3, beta -> -2, rc/pre -> -1 (advance = literal length); nb -> revision := following digit run or 0, nothing pushed; "
     "ASCII letter -> 0 then its rank; anything else -> nothing pushed, advance len_utf8; literal arms precede the letter arm; "
     "D2 the literal guards are ASCII-case-insensitive and the letter value is the same for both cases (value-set propagation over A-Z, a-z); D3 letter rank a..z = 1..26; "
-    "D4 comparison discipline is decided by C03's rules; D5 best_match compares with dewey::dewey_cmp on DeweyVersion::new(PkgName::new(pkgN).pkgversion()) (C06)")
+    "D4-COMPARE the comparison discipline (zero padding, operand provenance, revision last, operator table) = C03's CMP-2..5/CMP-RET verdicts on dewey_cmp/dewey_test, shared as instances of this check; D5 best_match compares with dewey::dewey_cmp on DeweyVersion::new(PkgName::new(pkgN).pkgversion()) (C06)")
 NOT_DECIDED = [
     "that take_while(is_ascii_digit) + parse::<i64> yields the numeric value (std; digit runs <= 18 by the quantifier)",
     "agreement with pkg_install on inputs outside the stated rule",
@@ -488,6 +488,25 @@ def run(ctx):
     # purity: a function of the string alone
     impure = sorted({t["func"]["path"] for _, t in body.calls() if not (t["func"]["path"].startswith(("core::", "std::", "alloc::", "<std::", "<core::", "<alloc::", "dewey::")))})
     ctx.check(not impure, "D4-PURE", DV, "function-of-the-string", "no calls outside std and this module", "the tokeniser calls %s: it may not be a function of the string alone" % impure, fn_span(body), nontrivial=False)
+    # D4 the comparison itself: "position by position with missing components read as 0, revision decides only when all components tie" is what
+    # C03's CMP-2..CMP-5 / CMP-RET establish about dewey_cmp and dewey_test; a break of those breaks this property's stated order, so their
+    # verdicts are part of this check (shared rule instances, evaluated on the current tree)
+    import rules.c03 as c03
+    from check import Ctx, Record
+    sub = Ctx("C03", ctx.tier, ctx.fx)
+    sub.inline_set = ctx.inline_set
+    sub.desugar = bool(getattr(c03, "DESUGAR", False))
+    try:
+        c03.run(sub)
+        shared = [r for r in sub.records if r.rule in ("CMP-2", "CMP-3", "CMP-4", "CMP-5", "CMP-RET") and not r.instance.startswith("floor:")]
+    except Exception:
+        shared = None
+    if not shared:
+        ctx.violation("D4-COMPARE", "dewey::dewey_cmp", "comparison-rules", "the comparison rules of dewey_cmp could not be evaluated", "")
+    else:
+        for r in shared:
+            ctx.records.append(Record("D4-COMPARE", r.item, "%s:%s" % (r.rule, r.instance), r.verdict, r.detail, r.span, False))
+    ctx.floor("D4-COMPARE", "dewey::dewey_cmp", "shared comparison rule instances", len(shared or []), 10)
     # D5 best_match
     bm = ctx.paths("pattern::Pattern::best_match")
     if bm:
